@@ -21,7 +21,9 @@ pub uninterp spec fn vsplit_remaining<'a>(b: &VSplit<'a>) -> Seq<&'a str>;
 #[verifier::external_body]
 pub fn verif_split<'a>(s: &'a str, c: char) -> (r: VSplit<'a>)
     requires (c as u32) < 128,
-    ensures strs_bytes(vsplit_remaining(&r)) == split_seq(str_bytes(s), c as u8),
+    ensures
+        vsplit_remaining(&r).len() == split_seq(str_bytes(s), c as u8).len(),
+        forall|i: int| 0 <= i < vsplit_remaining(&r).len() ==> str_bytes(#[trigger] vsplit_remaining(&r)[i]) == split_seq(str_bytes(s), c as u8)[i],
 { VSplit { it: s.split(c) } }
 
 impl<'a> Iterator for VSplit<'a> {
